@@ -39,12 +39,24 @@ func aggOf(mv *data_model.MultiValue) agg {
 	return agg{mv.Value.Count(), mv.Value.ValueSum, mv.Value.ValueMin, mv.Value.ValueMax, mv.Value.ValueSet}
 }
 
-// fi prints a float that must be an integer of the exact domain; anything else is rendered so that it cannot match the model
-func fi(x float64) string {
-	if x != math.Trunc(x) || math.Abs(x) > 1<<53 {
+// Exact domain: counts and values are multiples of 1/16 (unit16), sums of value*count multiples of 1/256 (unit256); the
+// protocol and the Lean model carry them as integers in those units.
+const (
+	unit16  = 16
+	unit256 = 256
+)
+
+// q converts a generator number (in 1/16 units) to the float64 handed to the real code
+func q(x int64) float64 { return float64(x) / unit16 }
+
+// fs prints a float as an integer number of 1/scale units; a float outside the exact domain is rendered so that it
+// cannot match the model
+func fs(x float64, scale float64) string {
+	y := x * scale
+	if y != math.Trunc(y) || math.Abs(y) > 1<<53 {
 		return fmt.Sprintf("inexact(%v)", x)
 	}
-	return strconv.FormatInt(int64(x), 10)
+	return strconv.FormatInt(int64(y), 10)
 }
 
 func (a agg) String() string {
@@ -52,7 +64,7 @@ func (a agg) String() string {
 	if a.set {
 		s = 1
 	}
-	return fmt.Sprintf("%s:%s:%s:%s:%d", fi(a.cnt), fi(a.sum), fi(a.mn), fi(a.mx), s)
+	return fmt.Sprintf("%s:%s:%s:%s:%d", fs(a.cnt, unit16), fs(a.sum, unit256), fs(a.mn, unit16), fs(a.mx, unit16), s)
 }
 
 func keyStr(k tag) string { return verifx.Hex([]byte(k.S)) + "." + strconv.Itoa(int(k.I)) }
@@ -122,8 +134,8 @@ func snapshot(it *data_model.MultiItem) (top map[tag]agg, tail agg, sf int) {
 
 type event struct {
 	kind string // c v vs m
-	v, c int64
-	vs   []int64
+	v, c int64   // in 1/16 units
+	vs   []int64 // in 1/16 units
 	iv   data_model.ItemValue
 }
 
@@ -140,14 +152,14 @@ func (e event) tokens() string {
 		if e.iv.ValueSet {
 			s = 1
 		}
-		return fmt.Sprintf("m %s %s %s %s %d", fi(e.iv.Count()), fi(e.iv.ValueSum), fi(e.iv.ValueMin), fi(e.iv.ValueMax), s)
+		return fmt.Sprintf("m %s %s %s %s %d", fs(e.iv.Count(), unit16), fs(e.iv.ValueSum, unit256), fs(e.iv.ValueMin, unit16), fs(e.iv.ValueMax, unit16), s)
 	}
 }
 
 func floats(xs []int64) []float64 {
 	fs := make([]float64, len(xs))
 	for i, x := range xs {
-		fs[i] = float64(x)
+		fs[i] = q(x)
 	}
 	return fs
 }
@@ -170,11 +182,11 @@ func (r *row) write(api string, capacity int, k tag, count float64, e event, hos
 		}
 		switch e.kind {
 		case "c":
-			mv.AddCounterHost(r.rng, float64(e.c), host)
+			mv.AddCounterHost(r.rng, q(e.c), host)
 		case "v":
-			mv.AddValueCounterHost(r.rng, float64(e.v), float64(e.c), host)
+			mv.AddValueCounterHost(r.rng, q(e.v), q(e.c), host)
 		case "vs":
-			mv.ApplyValues(r.rng, nil, floats(e.vs), float64(e.c), float64(len(e.vs)), host, data_model.AgentPercentileCompression, false)
+			mv.ApplyValues(r.rng, nil, floats(e.vs), q(e.c), float64(len(e.vs)), host, data_model.AgentPercentileCompression, false)
 		case "m":
 			iv := e.iv
 			mv.Value.Merge(r.rng, &iv)
@@ -186,14 +198,14 @@ func (r *row) write(api string, capacity int, k tag, count float64, e event, hos
 	switch e.kind {
 	case "c":
 		if viaApply {
-			r.shard.ApplyCounter(key, 0, float64(e.c), host, nil, 0)
+			r.shard.ApplyCounter(key, 0, q(e.c), host, nil, 0)
 		} else {
-			r.shard.AddCounterHost(key, 0, float64(e.c), host, nil, 0)
+			r.shard.AddCounterHost(key, 0, q(e.c), host, nil, 0)
 		}
 	case "v":
-		r.shard.AddValueCounterHost(key, 0, float64(e.v), float64(e.c), host, nil, 0)
+		r.shard.AddValueCounterHost(key, 0, q(e.v), q(e.c), host, nil, 0)
 	case "vs":
-		r.shard.ApplyValues(key, 0, nil, floats(e.vs), float64(e.c), host, nil, 0)
+		r.shard.ApplyValues(key, 0, nil, floats(e.vs), q(e.c), host, nil, 0)
 	case "m":
 		iv := e.iv
 		r.shard.MergeItemValue(key, 0, &iv, nil, 0)
@@ -204,8 +216,8 @@ func (r *row) write(api string, capacity int, k tag, count float64, e event, hos
 // ---------------------------------------------------------------- direct oracle state: totals of all events written
 
 type totals struct {
-	cnt, sum int64
-	mn, mx   int64
+	cnt, sum int64 // cnt in 1/16 units, sum in 1/256 units
+	mn, mx   int64 // 1/16 units
 	set      bool
 	off      bool // a non-positive count was written: "the count of the event" is outside the property's domain
 }
@@ -250,17 +262,17 @@ func (t *totals) add(e event) {
 			t.val(v)
 		}
 		t.cnt += e.c
-		t.sum += s * e.c / int64(len(e.vs)) // generator keeps this exact
+		t.sum += s * e.c / int64(len(e.vs)) // (sum of values)·count/len in 1/256 units; the generator keeps the division exact
 	case "m":
 		if e.iv.Count() <= 0 {
 			t.off = true
 			return
 		}
-		t.cnt += int64(e.iv.Count())
+		t.cnt += int64(e.iv.Count() * unit16)
 		if e.iv.ValueSet {
-			t.sum += int64(e.iv.ValueSum)
-			t.val(int64(e.iv.ValueMin))
-			t.val(int64(e.iv.ValueMax))
+			t.sum += int64(e.iv.ValueSum * unit256)
+			t.val(int64(e.iv.ValueMin * unit16))
+			t.val(int64(e.iv.ValueMax * unit16))
 		}
 	}
 }
@@ -290,20 +302,20 @@ func checkTotals(h *verifx.H, where string, t *totals, top map[tag]agg, tail agg
 			set = true
 		}
 	}
-	if cnt != float64(t.cnt) {
-		h.Viol("conservation-count", "%s: top+tail count %v, events written %d", where, cnt, t.cnt)
+	if cnt*unit16 != float64(t.cnt) {
+		h.Viol("conservation-count", "%s: top+tail count %v, events written %v", where, cnt, float64(t.cnt)/unit16)
 	}
-	if sum != float64(t.sum) {
-		h.Viol("conservation-sum", "%s: top+tail sum %v, events written %d", where, sum, t.sum)
+	if sum*unit256 != float64(t.sum) {
+		h.Viol("conservation-sum", "%s: top+tail sum %v, events written %v", where, sum, float64(t.sum)/unit256)
 	}
 	if set != t.set {
 		h.Viol("conservation-minmax", "%s: top+tail has values=%v, events written have values=%v", where, set, t.set)
 	} else if set {
-		if mn != float64(t.mn) {
-			h.Viol("conservation-min", "%s: top+tail min %v, events written %d", where, mn, t.mn)
+		if mn*unit16 != float64(t.mn) {
+			h.Viol("conservation-min", "%s: top+tail min %v, events written %v", where, mn, float64(t.mn)/unit16)
 		}
-		if mx != float64(t.mx) {
-			h.Viol("conservation-max", "%s: top+tail max %v, events written %d", where, mx, t.mx)
+		if mx*unit16 != float64(t.mx) {
+			h.Viol("conservation-max", "%s: top+tail max %v, events written %v", where, mx, float64(t.mx)/unit16)
 		}
 	}
 }
@@ -319,6 +331,11 @@ type gen struct {
 	hosts     bool
 	degen     bool
 	bin       []byte
+	fracC     bool  // counts carry a fractional part (multiples of 1/16)
+	fracV     bool  // values carry a fractional part
+	uniform   bool  // uniform instead of Zipf key choice
+	simple    bool  // counter and value events only
+	clusterB  int64 // countMode 3: every count lies in [clusterB, clusterB+1)
 }
 
 func (g *gen) key() tag {
@@ -327,7 +344,7 @@ func (g *gen) key() tag {
 	}
 	// log-uniform rank ~ Zipf(1)
 	j := int(math.Pow(float64(g.nkeys), float64(g.r.Intn(1000))/1000.0)) - 1
-	if g.r.Chance(1, 6) {
+	if g.uniform || g.r.Chance(1, 6) {
 		j = g.r.Intn(g.nkeys)
 	}
 	switch (j + g.salt) % 5 {
@@ -344,29 +361,50 @@ func (g *gen) key() tag {
 	}
 }
 
+// count in 1/16 units
 func (g *gen) count() int64 {
 	if g.degen && g.r.Chance(1, 8) {
-		return int64(-g.r.Intn(3)) // 0, -1, -2
+		return int64(-g.r.Intn(3)) // 0, -1/16, -2/16
 	}
+	var c int64
 	switch g.countMode {
 	case 0:
-		return int64(g.r.Range(1, 3))
+		c = int64(g.r.Range(1, 3))
 	case 1:
-		return int64(g.r.Range(1, 64))
+		c = int64(g.r.Range(1, 64))
+	case 3:
+		return g.clusterB*unit16 + int64(g.r.Intn(unit16)) // several values less than 1 apart
 	default:
-		return int64(1) << uint(g.r.Intn(13))
+		c = int64(1) << uint(g.r.Intn(13))
 	}
+	c *= unit16
+	if g.fracC {
+		switch g.r.Intn(3) {
+		case 0:
+			c += int64(g.r.Intn(unit16)) // c + j/16
+		case 1:
+			c -= int64(g.r.Intn(unit16)) // just below: (c-1, c]
+		}
+	}
+	return c
 }
 
+// value in 1/16 units
 func (g *gen) value() int64 {
+	var v int64
 	switch g.valMode {
 	case 0:
-		return int64(g.r.Range(-1000, 1000))
+		v = int64(g.r.Range(-1000, 1000))
 	case 1:
-		return int64(g.r.Range(0, 9))
+		v = int64(g.r.Range(0, 9))
 	default:
-		return int64(g.r.Range(-(1 << 20), 1<<20))
+		v = int64(g.r.Range(-(1 << 20), 1<<20))
 	}
+	v *= unit16
+	if g.fracV {
+		v += int64(g.r.Intn(unit16))
+	}
+	return v
 }
 
 func (g *gen) host() tag {
@@ -377,6 +415,12 @@ func (g *gen) host() tag {
 }
 
 func (g *gen) event(shard bool) event {
+	if g.simple {
+		if g.r.Bool() {
+			return event{kind: "c", c: g.count()}
+		}
+		return event{kind: "v", v: g.value(), c: g.count()}
+	}
 	switch g.r.Pick(40, 35, 15, 10) {
 	case 0:
 		return event{kind: "c", c: g.count()}
@@ -395,25 +439,25 @@ func (g *gen) event(shard bool) event {
 		if g.r.Chance(1, 3) {
 			mult = int64(g.r.Range(2, 4))
 		}
-		c := int64(n) * mult
+		c := int64(n) * mult * unit16 // a multiple of the array length: ValueSum*count/len stays exact
 		if n == 0 {
-			c = 1
+			c = unit16
 		}
 		return event{kind: "vs", vs: vs, c: c}
 	default:
 		var iv data_model.ItemValue
 		switch g.r.Intn(3) {
 		case 0:
-			iv = data_model.SimpleItemCounter(float64(g.count()), g.host())
+			iv = data_model.SimpleItemCounter(q(g.count()), g.host())
 		case 1:
-			iv = data_model.SimpleItemValue(float64(g.value()), float64(g.count()), g.host())
+			iv = data_model.SimpleItemValue(q(g.value()), q(g.count()), g.host())
 		default:
 			c := g.count()
 			if c <= 0 {
-				c = 1
+				c = unit16
 			}
-			iv = data_model.SimpleItemValue(float64(g.value()), float64(c), g.host())
-			iv.AddValueCounter(float64(g.value()), float64(g.count()))
+			iv = data_model.SimpleItemValue(q(g.value()), q(c), g.host())
+			iv.AddValueCounter(q(g.value()), q(g.count()))
 		}
 		return event{kind: "m", iv: iv}
 	}
@@ -423,7 +467,7 @@ func (g *gen) event(shard bool) event {
 
 func runCase(h *verifx.H, i int, r *verifx.Rng) {
 	g := &gen{r: r, salt: r.Intn(5), countMode: r.Pick(40, 35, 25), valMode: r.Intn(3), hosts: r.Bool(), degen: r.Chance(1, 12),
-		bin: r.Bytes(r.Range(0, 2))}
+		bin: r.Bytes(r.Range(0, 2)), fracC: r.Bool(), fracV: r.Bool()}
 	shard := r.Chance(2, 5)
 	rw := &row{}
 	seed := r.U64()
@@ -439,7 +483,7 @@ func runCase(h *verifx.H, i int, r *verifx.Rng) {
 	// capacity policy
 	capFixed, capVary := 0, false
 	nops := r.Range(5, 120)
-	switch r.Pick(40, 28, 4, 16, 12) {
+	switch r.Pick(32, 24, 4, 14, 10, 16) {
 	case 0:
 		capFixed = r.Range(1, 6)
 		g.nkeys = capFixed + r.Range(0, 3*capFixed+3)
@@ -459,10 +503,25 @@ func runCase(h *verifx.H, i int, r *verifx.Rng) {
 		capVary = true
 		g.nkeys = r.Range(2, 24)
 		h.Stat("cap.varying", 1)
-	default:
+	case 4:
 		capFixed = r.Range(30, 60)
 		g.nkeys = r.Range(1, 25)
 		h.Stat("cap.roomy", 1)
+	default:
+		// many distinct top values whose counts are less than 1 apart, no eviction, finish cuts through the cluster
+		nops = r.Range(6, 60)
+		capFixed = 1000
+		g.nkeys = 3 * nops
+		g.uniform, g.simple, g.degen = true, true, false
+		g.countMode = 3
+		g.clusterB = []int64{1, 1, 2, 5, 40}[r.Intn(5)]
+		h.Stat("cap.roomy-fraction-cluster", 1)
+	}
+	if g.fracC || g.countMode == 3 {
+		h.Stat("case.fractional-counts", 1)
+	}
+	if g.fracV {
+		h.Stat("case.fractional-values", 1)
 	}
 	if g.degen {
 		h.Stat("case.nonpositive-counts", 1)
@@ -484,7 +543,7 @@ func runCase(h *verifx.H, i int, r *verifx.Rng) {
 		sr := verifx.NewRng(base*3 + uint64(op)*0xBF58476D1CE4E5B9 + 17)
 		g.r = r
 		if op == midFinish {
-			doFinish(h, sr, rw, tot)
+			doFinish(h, sr, rw, tot, g.countMode == 3)
 		}
 		if r.Chance(1, 30) {
 			doReorder(h, sr, rw)
@@ -495,7 +554,7 @@ func runCase(h *verifx.H, i int, r *verifx.Rng) {
 		}
 		k := g.key()
 		e := g.event(shard)
-		count := float64(e.c)
+		count := q(e.c)
 		if e.kind == "m" {
 			count = e.iv.Count()
 		}
@@ -505,11 +564,11 @@ func runCase(h *verifx.H, i int, r *verifx.Rng) {
 				viaApply = false // Shard.ApplyCounter drops count <= 0 before the row is touched
 			}
 			if e.kind == "vs" && e.c <= 0 {
-				e.c = int64(len(e.vs))
-				count = float64(e.c)
+				e.c = int64(len(e.vs)) * unit16
+				count = q(e.c)
 			}
 		} else if r.Chance(1, 10) {
-			count = float64(g.count()) // MapStringTop's count argument is independent of what the caller adds afterwards
+			count = q(g.count()) // MapStringTop's count argument is independent of what the caller adds afterwards
 		}
 		api := "s"
 		if !shard && r.Bool() {
@@ -554,7 +613,7 @@ func runCase(h *verifx.H, i int, r *verifx.Rng) {
 			}
 			rs = append(rs, strings.Join(ds, ","))
 		}
-		h.Op("w %s %d %s %s %d r=%s %s", api, capacity, keyStr(k), fi(count), u, strings.Join(rs, "/"), e.tokens())
+		h.Op("w %s %d %s %s %d r=%s %s", api, capacity, keyStr(k), fs(count, unit16), u, strings.Join(rs, "/"), e.tokens())
 		if panicked {
 			h.Obs("panic")
 			h.Viol("panic", "write panicked: key=%s event=%s", keyStr(k), e.tokens())
@@ -613,7 +672,7 @@ func runCase(h *verifx.H, i int, r *verifx.Rng) {
 		tot.add(e)
 		checkTotals(h, fmt.Sprintf("after write %d", op), tot, postTop, postTail)
 	}
-	doFinish(h, verifx.NewRng(base*3+999983), rw, tot)
+	doFinish(h, verifx.NewRng(base*3+999983), rw, tot, g.countMode == 3)
 	if evictedAny {
 		h.NonTrivial("resample")
 	}
@@ -644,7 +703,7 @@ func doReorder(h *verifx.H, r *verifx.Rng, rw *row) {
 	h.Stat("reorders", 1)
 }
 
-func doFinish(h *verifx.H, r *verifx.Rng, rw *row, tot *totals) {
+func doFinish(h *verifx.H, r *verifx.Rng, rw *row, tot *totals, cluster bool) {
 	it := rw.cur()
 	if it == nil {
 		return
@@ -670,7 +729,9 @@ func doFinish(h *verifx.H, r *verifx.Rng, rw *row, tot *totals) {
 	default:
 		capacity = []int{5, 20}[r.Intn(2)] // MinStringTopSend-ish / default StringTopCountSend
 	}
-	if r.Chance(1, 3) {
+	if cluster && n >= 2 {
+		capacity = r.Range(1, n-1) // cut through the cluster of counts that are less than 1 apart
+	} else if r.Chance(1, 3) {
 		// put the boundary between two equal counts when there are any: the unstable sort decides, both outcomes are legal
 		cs := make([]float64, 0, n)
 		for _, a := range preTop {
@@ -721,7 +782,7 @@ func doFinish(h *verifx.H, r *verifx.Rng, rw *row, tot *totals) {
 	for _, k := range sortedKeys(postTop) {
 		ts = append(ts, keyStr(k)+"="+postTop[k].String())
 	}
-	h.Obs("fin whale=%s tail=%s n=%d top=%s", fi(whale), postTail, len(postTop), verifx.List(ts))
+	h.Obs("fin whale=%s tail=%s n=%d top=%s", fs(whale, unit16), postTail, len(postTop), verifx.List(ts))
 
 	// ---- direct oracle: at most `capacity` remain, every retained value at least as heavy as every folded one, nothing lost
 	limit := max(capacity, 0)
@@ -754,6 +815,10 @@ func doFinish(h *verifx.H, r *verifx.Rng, rw *row, tot *totals) {
 		if len(kept) > 0 && minKept == maxFolded {
 			h.Stat("finish.tie-at-boundary", 1)
 			h.NonTrivial("tie")
+		}
+		if len(kept) > 0 && minKept != maxFolded && math.Abs(minKept-maxFolded) < 1 {
+			h.Stat("finish.cut-inside-one-unit", 1)
+			h.NonTrivial("fraccut")
 		}
 	}
 }
